@@ -976,17 +976,21 @@ class Wtp:
         assert isinstance(text, str), (
             f"{text=!r} was passed into _template_to_body"
         )
-        # Remove all comments
-        text = re.sub(r"(?s)<!--.*?-->", "", text)
-        # Remove all text inside <noinclude> ... </noinclude>
-        text = re.sub(r"(?is)<noinclude\s*>.*?</noinclude\s*>", "", text)
+        # Remove all comments and all text inside <noinclude> ... </noinclude>
+        # in one left-to-right scan: whichever opens first extends to its own
+        # terminator, so a "<!--" inside <noinclude> does not hide the
+        # </noinclude> that follows it (and vice versa).
         # Handle <noinclude> without matching </noinclude> by removing the
         # rest of the file.  <noinclude/> is handled specially elsewhere, as
         # it appears to be used as a kludge to prevent normal interpretation
         # of e.g. [[ ... ]] by placing it between the brackets.
-        text = re.sub(r"(?is)<noinclude\s*>.*", "", text)
         # Apparently unclosed <!-- at the end of a template body is ignored
-        text = re.sub(r"(?s)<!--.*", "", text)
+        text = re.sub(
+            r"(?is)<!--.*?(?:-->|\Z)|"
+            r"<noinclude\s*>.*?(?:</noinclude\s*>|\Z)",
+            "",
+            text,
+        )
         # <onlyinclude> tags, if present, include the only text that will be
         # transcluded.  All other text is ignored.
         onlys = list(
